@@ -212,6 +212,28 @@ func runC06() {
 			}
 		}
 	}
+	// membership in a literal range LARGER than the budget: the language defines `x in a..b` by two comparisons and the optimized
+	// program creates nothing - whatever spelling the bounds have and in whichever slot the test stands (a run that needs
+	// no element is never refused)
+	for _, src := range []string{"I in -1000000..1000000", "I in 1..2 * 1000 * 1000", "I not in -(1)..+(2000000)", "(I in 1..2000000) ?: B", "(I not in 1..2000000) ?: B",
+		"map(AI, {# in -5..2000000})", "I in 1..2000000 ? 1 : 2", "{\"k\": I in 0..3000000}", "[I in -3000000..-1, I in 1..3000000]"} {
+		_, prog, _, err := pipeline(src, modeTypedOpt.options(envs[0]))
+		if err != nil {
+			rep.hist("rejected at compile time")
+			continue
+		}
+		for ei, e := range envs {
+			r, used := runWithBudget(prog, e, 1000000)
+			rep.Evaluations++
+			rep.hist("membership in a literal range above the budget")
+			if r.err != nil || used > 16 { // (the result containers of the last three sources count 4, 1 and 2 elements)
+				rep.fail(Failure{Key: "C06-refused-below-budget", What: "membership in a literal range is answered by building the range: a run that needs no element is refused (or charged)",
+					Input: map[string]interface{}{"src": src, "mode": modeTypedOpt.Name, "env": ei, "budget": 1000000, "need": 0},
+					Want:  "a result, at most the elements of the result itself accounted", Got: fmt.Sprintf("%v / %v (accounted %d)", clip(fmt.Sprint(r.out)), r.err, used)})
+				break
+			}
+		}
+	}
 	rep.Distinct = len(distinct)
 	rep.Rule = "allocating expressions (array/map literals, run-time ranges with ascending, empty and descending bounds chosen by the environment, map/filter results, nestings to depth 3) compiled untyped and typed+optimized; for each environment the ideal run (budget 2^61) gives the need N read from the VM's counter (verif hook) and cross-checked against the elements visible in the result; then budgets N+1, N, 1, 2, N/2, N+17, 10^6: success with the same result iff budget > N, 'memory budget exceeded' iff budget <= N; distinct_nontrivial = distinct (source, mode, environment) with N >= 1; the runs with the first three budgets are also evaluated in the Coq VM and reference semantics (N <= 8000; above that only the run under budget 1)"
 	for i := 0; i < 5 && i < len(srcs); i++ {
